@@ -77,6 +77,32 @@ CHECKS["C07"] = dict(
          "multi-section clauses, per-column user vectors overriding border_first, larger pages.",
     design="4/C07", technique=TECH_A)
 
+CHECKS["C12"] = dict(
+    text="Colour resolution decided on the real ColorService with its 657-entry table abstracted to opaque names whose "
+         "master ranks are symbolic distinct integers (one query covers every subset and order of real colours of that "
+         "size, RGB aliases included), directly and through the real single / multi-section / figure encode paths with "
+         "probing services; font references with the font number symbolic.",
+    note="Trusted: z3/CrossHair; the rank abstraction (the code only compares ranks); probes standing for the component "
+         "encoders. Outside: more than 3 colours per document, RGB values of the data file, border colours.",
+    design="4/C12", technique=TECH_A)
+CHECKS["C14"] = dict(
+    text="Purity decided by one inductive step from an ARBITRARY pre-state instead of exploring histories: for any residual "
+         "colour context the three real encode paths emit the same indices as from a clean state; explicit two-step "
+         "histories with a failing first encode; the class-level registry from any pre-registry; no writes into component "
+         "objects during encode; defaults written at construction stay in the document's own copies.",
+    note="Trusted: as C12; namespaces standing for pydantic components in the encode-path obligations (real pydantic "
+         "objects in O5). Byte equality of whole documents across histories is covered by concrete witnesses only.",
+    design="4/C14", technique=TECH_A)
+CHECKS["C15"] = dict(
+    text="Other threads modelled as a nondeterministic environment: the solver chooses the call boundary k of thread A's "
+         "encode at which thread B - on a real second thread, so thread/context-local state behaves as it really does - "
+         "starts or completes its own encode with an arbitrary palette; A's indices and table must equal its sequential "
+         "result for every k and palette (quick: one preemption; thorough: also two). A census of process-global mutable "
+         "state validates that nothing else is shared.",
+    note="Trusted: as C12; preemption modelled at the granularity of calls into the colour API; 2 threads. Outside: races "
+         "inside polars/pydantic-core, more preemptions, free-threaded builds.",
+    design="4/C15", technique=TECH_A + "; schedule (preemption point, other thread's action) as symbolic variables")
+
 NOT_APPLICABLE = {
     "C18": "file-system crash-point property: effects of pathlib/tempfile/shutil and an external converter are opaque to "
            "(and blocked under) symbolic execution; a model of the file system would verify the model, not the effects",
